@@ -1438,6 +1438,25 @@ class Ev:
             repl, s = args[0], args[1]
             if isinstance(s, Frag):
                 return s
+            if isinstance(s, Str) and s.is_lit() and len(args) == 2:
+                # constant folding: the text is a literal
+                import re as _re
+
+                if isinstance(repl, Str) and repl.is_lit():
+                    return Str.lit(_re.sub(pattern, repl.text(), s.text()))
+                if isinstance(repl, FuncV):
+                    def cb(m):
+                        groups = {0: Str.lit(m.group(0))}
+                        for i, g in enumerate(m.groups(), 1):
+                            groups[i] = NONE if g is None else Str.lit(g)
+                        for k, g in m.groupdict().items():
+                            groups[k] = NONE if g is None else Str.lit(g)
+                        r = self.apply(repl, [MatchV(groups)], {}, e, None)
+                        if not (isinstance(r, Str) and r.is_lit()):
+                            raise AnalysisError("re.sub replacement function does not fold to text at line %d" % e.lineno)
+                        return r.text()
+
+                    return Str.lit(_re.sub(pattern, cb, s.text()))
             if not (isinstance(repl, Str) and repl.is_lit() and isinstance(s, Str)):
                 raise AnalysisError("re.sub arguments at line %d" % e.lineno)
             return re_sub_class(pattern, repl.text(), s)
